@@ -312,7 +312,17 @@ def run_shard(ctx):
             gen = gen_dsl.Gen(rng, shared_props=0.5 if idx % 12 == 0 else 0.0,
                               explicit_required=0.5, renames=0.4, inheritance=0.4,
                               pattern_overlap=0.6 if idx % 4 == 1 else 0.0)
-            if idx % 10 == 7:
+            if idx % 20 == 3:
+                # keyword values of an unusual TYPE that the constructors accept all the same (a boolean where
+                # a number is usual - booleans are numbers to Python): validating must leave them as they are
+                inner = {"t": rng.choice(["Integer", "Number"]),
+                         "kw": {"minimum": rng.choice([0, 3]), "maximum": 50,
+                                rng.choice(["exclusiveMinimum", "exclusiveMaximum"]): rng.choice([True, False]),
+                                **({"multipleOf": True} if rng.random() < 0.3 else {})}}
+                spec = rng.choice([inner, {"t": "Array", "kw": {}, "items": inner},
+                                   {"t": "Element", "kw": {"properties": {"n": {"el": inner, "required": False, "source": None}}}}])
+                ctx.count("trees.boolean_where_number_is_usual")
+            elif idx % 10 == 7:
                 # a composition whose FIRST member hands the caller's own object back (`not` does), followed by
                 # members that would fill in defaults: whatever is "merged" must not land in the input
                 filler = {"t": "Element", "kw": {"properties": {
